@@ -803,6 +803,18 @@ func (e *evalEnv) call(x *ast.CallExpr) tv {
 		case "typeIs":
 			v := e.value(e.eval(x.Args[0]))
 			t := e.evalType(x.Args[1])
+			if e.nquant == 0 && e.a != nil {
+				// the dynamic type determines the representation of the boxed value (well-formedness of interface values)
+				key := fmt.Sprintf("shape:%s:%d@%s", v.term, g.tag(t), e.a.curReach)
+				if !g.specUsed[key] {
+					g.specUsed[key] = true
+					reach := "true"
+					if e.a.curReach != "" {
+						reach = e.a.curReach
+					}
+					g.assumeIf(reach, fmt.Sprintf("(=> (= (itag %s) %d) %s)", v.term, g.tag(t), e.a.boxShape(t, v.term)))
+				}
+			}
 			return tv{term: fmt.Sprintf("(= (itag %s) %d)", v.term, g.tag(t)), typ: tBool}
 		case "sameSlice":
 			l, r := e.value(e.eval(x.Args[0])), e.value(e.eval(x.Args[1]))
@@ -862,6 +874,9 @@ func (e *evalEnv) call(x *ast.CallExpr) tv {
 				e.fail(x, "mapview(): values must be byte slices")
 			}
 			return tv{term: fmt.Sprintf("(mkSMap (select %s %s) (mvview (select %s %s) (select %s %s) %s))", e.st.H["MD"], m.term, e.st.H["MD"], m.term, e.st.H["ML"], m.term, e.st.H["I"]), typ: types.NewMap(mt.Key(), tString), smap: true}
+		case "allocstamp":
+			// allocstamp(): the allocation counter at this point (every object allocated later has a reference >= it)
+			return tv{term: e.st.Next, typ: tInt}
 		case "spawned":
 			// spawned(): number of go statements the function under verification has executed so far (ghost)
 			return tv{term: sel(e.st.H["I"], ghostSpawnRef, "0"), typ: tInt}
